@@ -18,9 +18,9 @@ func init() {
 		ID: "C12", Level: "fault_enumeration", PanicClause: "C12.panic_without_fault",
 		Cases: func(tier string) int {
 			if tier == "quick" {
-				return 640
+				return 960
 			}
-			return 60000
+			return 40000
 		},
 		Rule: "case = one (state recipe, operation): the state (fully persisted and re-opened / persisted with a dirty in-memory path / in memory only / one delete away from a shrink / just grown / a high-layer key whose left child alone is a private in-memory node / low-layer keys at the grow threshold with an absent higher-layer key to insert / an absent higher-layer key whose split seam runs through private nodes with store-only children; bf 2-16; int, string, user and struct keys - struct keys marshal for both layer and order) is rebuilt from its seed for every run; a counting pass records how many Load, KeyCompare and Marshal calls the operation (Insert new/update, Delete, Get, Iter, SeekIter, DiffIter, DiffLinks, Clone, Cursor+Ceil+Forward+Backward) makes; then for EVERY index i of each kind (quick: first 24 per kind; thorough: first 80, plus sampled pairs) the i-th call is made to fail; if the operation returns an error, the full dump, Size and Height read with faults cleared must equal the pre-state and the same call must then succeed with the model's normal result; operations that absorb the fault (return nil) or panic under the fault are counted, not judged; non-trivial = a fault that was hit and surfaced as an error; distinct by (state, op, kind, index)",
 		Assumptions: []string{
